@@ -60,6 +60,18 @@ func main() {
 	for _, d := range ds {
 		fmt.Fprintln(os.Stderr, "c19: DIRTY", d)
 	}
+	type kv struct {
+		k string
+		v float64
+	}
+	var cs []kv
+	for k, v := range e.cost {
+		cs = append(cs, kv{k, v})
+	}
+	sort.Slice(cs, func(i, j int) bool { return cs[i].v > cs[j].v })
+	for i := 0; i < len(cs) && i < 25; i++ {
+		fmt.Fprintf(os.Stderr, "c19: cost %6.2fs %s\n", cs[i].v, cs[i].k)
+	}
 	var sk []string
 	for k, v := range e.skipped {
 		sk = append(sk, k+": "+v)
